@@ -8,7 +8,7 @@ import (
 	"github.com/markusressel/fan2go/internal/zzv"
 )
 
-//zzv:bound U1 = the real (*DefaultFanController).Run start-up (context already cancelled, so the actors only restore) on a hwmon / file / cmd fan with RPM-curve data and a PWM map in the store (map contents symbolic, 2 entries): exactly one PWM write happens in the whole run (the restore write), the controller's PWM map is the stored one, nothing is written to the store
+//zzv:bound U1 = the real (*DefaultFanController).Run start-up (context already cancelled, so the actors only restore) on a hwmon / file fan with RPM-curve data and a PWM map in the store (map contents symbolic, 2 entries): exactly one PWM write happens in the whole run (the restore write), the controller's PWM map is the stored one, nothing is written to the store
 //zzv:bound U2 = same with a pwmMap in the fan's configuration and any store content for the map: the controller's PWM map is the configured one and no sweep happens (one write)
 //zzv:bound U4 = the stored entries are deleted through the persistence interface the reset/init commands use (DeleteFanPwmData + DeleteFanPwmMap) and the next start then analyses the fan again (more than 200 PWM writes: the 255..0 sweep); a second start after that reuses what the first stored (start -> start history)
 //zzv:outside cobra wiring of `fan reset` / `fan init` (cmd/fan imports the CLI stack; only their two delete calls are modelled); the real bbolt store (C14); U3, the README promise that configured minPwm+maxPwm skip the RPM-curve measurement, is a known finding
@@ -35,10 +35,19 @@ func zzStartEnv(kind int, configuredMap bool) (*zzEnv, *zzMemPersistence) {
 	return e, mem
 }
 
+// zzRestoreWrites: PWM writes of the final restore: the original value, plus 255 when the fan has no
+// control mode to hand back (file fans)
+func zzRestoreWrites(kind int) int {
+	if kind == zzKindHwmon {
+		return 1
+	}
+	return 2
+}
+
 func zzStart(e *zzEnv, mem *zzMemPersistence) error {
 	e.curve = &zzCurve{id: "zzcurve", v: 100}
-	e.spy = &zzSpyFan{Fan: e.fan}
-	c := &DefaultFanController{persistence: mem, fan: e.spy, curve: e.curve, updateRate: time.Millisecond,
+	// no spy wrapper here: start-up switches on the concrete fan type; PWM writes are counted by the file model
+	c := &DefaultFanController{persistence: mem, fan: e.fan, curve: e.curve, updateRate: time.Millisecond,
 		pwmValuesWithDistinctTarget: []int{}, controlLoop: zzLoop(0)}
 	e.c = c
 	ctx, cancel := zzv.NewContext()
@@ -48,7 +57,7 @@ func zzStart(e *zzEnv, mem *zzMemPersistence) error {
 }
 
 func ZZ_C15_U1_StoredDataReused() {
-	kind := zzv.Choice("fanKind", 3)
+	kind := zzv.Choice("fanKind", 2) // hwmon / file (cmd fans write through a real command in replays: not counted)
 	e, mem := zzStartEnv(kind, false)
 	k1, k2 := zzRange("storedKey1", 0, 255), zzRange("storedKey2", 0, 255)
 	zzv.Assume(k1 < k2)
@@ -56,30 +65,30 @@ func ZZ_C15_U1_StoredDataReused() {
 	mem.rpm["zzfan"] = map[int]float64{0: 0, 255: 3000}
 	mem.pwmMaps["zzfan"] = map[int]int{k1: o1, k2: o2}
 	err := zzStart(e, mem)
-	zzv.Record("pwmWrites", len(e.spy.pwmWrites))
+	zzv.Record("pwmWrites", zzv.FileWrites(e.pwmPath))
 	zzv.Assert(err == nil, "U1.start_succeeds")
-	zzv.Assert(len(e.spy.pwmWrites) == 1, "U1.no_pwm_write_before_regulation")
+	zzv.Assert(zzv.FileWrites(e.pwmPath) == zzRestoreWrites(kind), "U1.no_pwm_write_before_regulation")
 	zzv.Assert(len(e.c.pwmMap) == 2, "U1.stored_map_is_used_size")
 	zzv.Assert(zzv.And(e.c.pwmMap[k1] == o1, e.c.pwmMap[k2] == o2), "U1.stored_map_is_used")
 	zzv.Assert(mem.saves == 0, "U1.nothing_measured_again")
 }
 
 func ZZ_C15_U2_ConfiguredMapWins() {
-	kind := zzv.Choice("fanKind", 3)
+	kind := zzv.Choice("fanKind", 2)
 	e, mem := zzStartEnv(kind, true)
 	mem.rpm["zzfan"] = map[int]float64{0: 0, 255: 3000}
 	if zzv.Choice("mapStored", 2) == 1 {
 		mem.pwmMaps["zzfan"] = map[int]int{0: 5, 255: 250}
 	}
 	err := zzStart(e, mem)
-	zzv.Record("pwmWrites", len(e.spy.pwmWrites))
+	zzv.Record("pwmWrites", zzv.FileWrites(e.pwmPath))
 	zzv.Assert(err == nil, "U2.start_succeeds")
-	zzv.Assert(len(e.spy.pwmWrites) == 1, "U2.no_sweep_with_configured_map")
+	zzv.Assert(zzv.FileWrites(e.pwmPath) == zzRestoreWrites(kind), "U2.no_sweep_with_configured_map")
 	zzv.Assert(zzv.And(len(e.c.pwmMap) == 3, e.c.pwmMap[128] == 128), "U2.configured_map_is_used")
 }
 
 func ZZ_C15_U4_ResetThenAnalyseOnce() {
-	kind := zzv.Choice("fanKind", 2) + 1 // file / cmd fans: no RPM-curve measurement loop
+	kind := zzKindFile // file fans: no RPM-curve measurement loop
 	e, mem := zzStartEnv(kind, false)
 	mem.rpm["zzfan"] = map[int]float64{0: 0, 255: 3000}
 	mem.pwmMaps["zzfan"] = map[int]int{0: 0, 255: 255}
@@ -87,15 +96,30 @@ func ZZ_C15_U4_ResetThenAnalyseOnce() {
 	_ = mem.DeleteFanPwmData(e.fan)
 	_ = mem.DeleteFanPwmMap(e.fan.GetId())
 	err := zzStart(e, mem)
-	zzv.Record("pwmWritesAfterReset", len(e.spy.pwmWrites))
+	zzv.Record("pwmWritesAfterReset", zzv.FileWrites(e.pwmPath))
 	zzv.Assert(err == nil, "U4.start_after_reset_succeeds")
-	zzv.Assert(len(e.spy.pwmWrites) > 200, "U4.fan_is_analysed_again_after_reset")
+	first := zzv.FileWrites(e.pwmPath)
+	zzv.Assert(first > 200, "U4.fan_is_analysed_again_after_reset")
 	_, hasMap := mem.pwmMaps["zzfan"]
 	_, hasRpm := mem.rpm["zzfan"]
 	zzv.Assert(zzv.And(hasMap, hasRpm), "U4.analysis_is_stored")
 	// second start: straight to regulation
 	err = zzStart(e, mem)
-	zzv.Record("pwmWritesSecondStart", len(e.spy.pwmWrites))
+	zzv.Record("pwmWritesSecondStart", zzv.FileWrites(e.pwmPath))
 	zzv.Assert(err == nil, "U4.second_start_succeeds")
-	zzv.Assert(len(e.spy.pwmWrites) == 1, "U4.second_start_does_not_analyse")
+	zzv.Assert(zzv.FileWrites(e.pwmPath) == first+zzRestoreWrites(kind), "U4.second_start_does_not_analyse")
+}
+
+// U3 (README: "use the minPwm and maxPwm fan config options ... That way the initialization phase
+// will be skipped"): a hwmon fan with both limits configured and nothing stored.
+func ZZ_C15_U3_ConfiguredLimitsSkipMeasurement() {
+	e, mem := zzStartEnv(zzKindHwmon, true)
+	e.hw.Config.MinPwm = zzIntPtr(30)
+	e.hw.Config.MaxPwm = zzIntPtr(200)
+	e.hw.MinPwm = e.hw.Config.MinPwm
+	e.hw.MaxPwm = e.hw.Config.MaxPwm
+	err := zzStart(e, mem)
+	zzv.Record("pwmWrites", zzv.FileWrites(e.pwmPath))
+	zzv.Assert(err == nil, "U3.start_succeeds")
+	zzv.Assert(zzv.FileWrites(e.pwmPath) == zzRestoreWrites(zzKindHwmon), "U3.no_rpm_curve_measurement_with_configured_limits")
 }
